@@ -26,6 +26,9 @@ def _work(args):
     try:
         with common.time_limit(common.RUN_LIMIT):
             r = rec.run_spec(spec)
+    except common.RunTimeout:
+        # cut off outside the recorder's own handler (while the configuration was being built): nothing to judge
+        return {"seed": seed, "spec": spec, "timed_out": True, "viol": {}, "sig": None, "stats": {}, "error": {"type": "RunTimeout"}}
     except Exception as ex:
         import traceback
         return {"seed": seed, "spec": spec, "crash": traceback.format_exc()[-1200:], "viol": {}, "sig": None, "stats": {}}
